@@ -46,7 +46,10 @@ type objCase struct {
 	typ     plumbing.ObjectType
 	content []byte
 	path    string // scratch file holding the content
+	large   bool   // MiB-sized: written through one rotating entry point only
+	link    bool   // prefer adding it as a symlink target in the worktree run
 	gitID   string // from git hash-object (per format, set during run)
+	sha1ID  string // git's id of the same object in a sha1 repository
 }
 
 func sizeClass(n int) string {
@@ -245,19 +248,16 @@ type gitObj struct {
 	size    int64
 	content []byte
 	ok      bool
+	skipped bool   // not examined (too many damaged objects before it)
+	why     string // git's complaint when !ok
 }
 
-func batchRead(g *gitx.Git, dir string, ids []string) (map[string]gitObj, error) {
-	res := g.RunIn(dir, []byte(strings.Join(ids, "\n")+"\n"), "cat-file", "--batch")
-	if res.Code != 0 {
-		return nil, fmt.Errorf("cat-file --batch: %s", res)
-	}
-	out := res.Out
-	m := map[string]gitObj{}
+// parseBatch parses `cat-file --batch` output; stops at the first malformed record.
+func parseBatch(out []byte, m map[string]gitObj) error {
 	for len(out) > 0 {
 		nl := bytes.IndexByte(out, '\n')
 		if nl < 0 {
-			return nil, fmt.Errorf("cat-file --batch: truncated header %q", out)
+			return fmt.Errorf("truncated header %q", out)
 		}
 		f := strings.Fields(string(out[:nl]))
 		out = out[nl+1:]
@@ -266,20 +266,62 @@ func batchRead(g *gitx.Git, dir string, ids []string) (map[string]gitObj, error)
 			continue
 		}
 		if len(f) != 3 {
-			return nil, fmt.Errorf("cat-file --batch: odd header %q", f)
+			return fmt.Errorf("odd header %q", f)
 		}
 		sz, err := strconv.ParseInt(f[2], 10, 64)
 		if err != nil || int64(len(out)) < sz+1 {
-			return nil, fmt.Errorf("cat-file --batch: bad size in %q (have %d bytes)", f, len(out))
+			return fmt.Errorf("bad size in %q (have %d bytes)", f, len(out))
 		}
 		m[f[0]] = gitObj{typ: f[1], size: sz, content: out[:sz], ok: true}
 		out = out[sz+1:]
+	}
+	return nil
+}
+
+var errTimeout = fmt.Errorf("git timed out")
+
+// batchRead reads all ids with one `git cat-file --batch`. When git chokes on some object
+// (dies or prints a short record) it falls back to one process per id, so that the damaged
+// objects are identified individually (ok=false, why set) instead of breaking the check.
+func batchRead(g *gitx.Git, dir string, ids []string) (map[string]gitObj, error) {
+	res := g.RunIn(dir, []byte(strings.Join(ids, "\n")+"\n"), "cat-file", "--batch")
+	if res.Timeout {
+		return nil, errTimeout
+	}
+	m := map[string]gitObj{}
+	if res.Code == 0 && parseBatch(res.Out, m) == nil {
+		return m, nil
+	}
+	m = map[string]gitObj{}
+	bad := 0
+	for _, id := range ids {
+		if _, done := m[id]; done {
+			continue
+		}
+		if bad >= 8 {
+			m[id] = gitObj{skipped: true}
+			continue
+		}
+		r1 := g.RunIn(dir, []byte(id+"\n"), "cat-file", "--batch")
+		if r1.Timeout {
+			return nil, errTimeout
+		}
+		one := map[string]gitObj{}
+		if r1.Code != 0 || parseBatch(r1.Out, one) != nil || !one[id].ok {
+			bad++
+			m[id] = gitObj{why: fmt.Sprintf("git cat-file --batch on this id: %s", r1)}
+			continue
+		}
+		m[id] = one[id]
 	}
 	return m, nil
 }
 
 func batchCheck(g *gitx.Git, dir string, ids []string) (map[string]string, error) {
 	res := g.RunIn(dir, []byte(strings.Join(ids, "\n")+"\n"), "cat-file", "--batch-check")
+	if res.Timeout {
+		return nil, errTimeout
+	}
 	if res.Code != 0 {
 		return nil, fmt.Errorf("cat-file --batch-check: %s", res)
 	}
@@ -310,10 +352,20 @@ func fsckIntegrity(g *gitx.Git, dir string) ([]string, gitx.Result) {
 	return bad, res
 }
 
+// gitErr classifies a failure of the git side: timeouts are inconclusive, anything else is broken machinery.
+func gitErr(c *vf.Ctx, where string, err error) {
+	if err == errTimeout {
+		c.Inconclusive("%s: git timed out (machine overloaded?)", where)
+		return
+	}
+	c.Broken("%s: %v", where, err)
+}
+
 func run(c *vf.Ctx) {
 	g := gitx.New(c.Scratch)
+	g.Timeout = 20 * time.Minute
 	r := c.Rand("cases")
-	nCases := c.N(400, 6000)
+	nCases := c.N(400, 4000)
 	nLarge := c.N(1, 8)
 	contentDir := c.TempDir("content")
 
@@ -333,6 +385,10 @@ func run(c *vf.Ctx) {
 		add(t, []byte(t.String()+" 3\x00abc"))
 		add(t, bytes.Repeat([]byte{0}, 4096))
 		add(t, []byte("\n"))
+	}
+	for _, tgt := range []string{"../x", "./a", "a//b", "a/", "/abs/path", "a/../b", " spaced ", "\xc3\xa9", "back\\slash", ".", "..", "a/./b/", "//", "\xff\xfe", "a\nb", strings.Repeat("d/", 400)} {
+		add(plumbing.BlobObject, []byte(tgt))
+		cases[len(cases)-1].link = true
 	}
 	for len(cases) < nCases {
 		t := allTypes[0]
@@ -363,6 +419,7 @@ func run(c *vf.Ctx) {
 			r.Read(b[:n/2])
 		}
 		add(allTypes[i%4], b)
+		cases[len(cases)-1].large = true
 	}
 	c.Extra("cases", len(cases))
 
@@ -393,6 +450,9 @@ func run(c *vf.Ctx) {
 			}
 			for i, cs := range sub {
 				cs.gitID = ids[i]
+				if fname == "sha1" {
+					cs.sha1ID = ids[i]
+				}
 				if len(ids[i]) != hexLen {
 					c.Broken("git returned id of odd length %q for format %s", ids[i], fname)
 					return
@@ -504,6 +564,9 @@ func run(c *vf.Ctx) {
 			for i, cs := range cases {
 				var h plumbing.Hash
 				var err error
+				if cs.large && cs.idx%len(entryPoints) != k {
+					continue
+				}
 				if p, stk := vf.Catch(func() { h, err = writeVia(ep, st, er, cs) }); p != nil {
 					c.Fail(fmt.Sprintf("panic:%s:%s", ep, fname), fmt.Sprintf("panic writing %s of %d bytes via %s: %v\n%s", cs.typ, len(cs.content), ep, p, stk), map[string]any{"content": vf.Hex(cs.content)})
 					continue
@@ -517,44 +580,57 @@ func run(c *vf.Ctx) {
 				c.Count("id_comparisons", 1)
 				c.Count("loose_objects_written_by_gogit", 1)
 				if ids[i] != cs.gitID {
-					c.Fail(fmt.Sprintf("id-mismatch:%s:%s", ep, fname),
+					key := fmt.Sprintf("id-mismatch:%s:%s", ep, fname)
+					if ep == "set-foreign-memobj" && fname == "sha256" && ids[i] == cs.sha1ID {
+						// exactly the SHA-1 id of the same object: SetEncodedObject echoes the foreign object's own Hash()
+						key = "set-foreign-memobj-returns-sha1-id-in-sha256-repo"
+					}
+					c.Fail(key,
 						fmt.Sprintf("%s: %s of %d bytes: go-git reports id %s, git hash-object %s", ep, cs.typ, len(cs.content), ids[i], cs.gitID),
 						map[string]any{"entry": ep, "format": fname, "type": cs.typ.String(), "content": vf.Hex(cs.content), "gogit": ids[i], "git": cs.gitID})
 				}
 			}
 			// git reads under git's own id (that is where git will look)
 			want := make([]string, 0, len(cases))
-			for _, cs := range cases {
-				want = append(want, cs.gitID)
+			for i, cs := range cases {
+				if ids[i] != "" {
+					want = append(want, cs.gitID)
+				}
 			}
 			got, err := batchRead(g, dir, want)
 			if err != nil {
-				c.Broken("%s/%s: %v", ep, fname, err)
+				gitErr(c, ep+"/"+fname, err)
 				return
 			}
 			chk, err := batchCheck(g, dir, want)
-			if err != nil {
-				c.Broken("%s/%s: %v", ep, fname, err)
+			if err == errTimeout {
+				gitErr(c, ep+"/"+fname, err)
 				return
+			}
+			if err != nil {
+				chk = nil // git died on a damaged object: the per-object reads above decide
 			}
 			for i, cs := range cases {
 				if ids[i] == "" {
 					continue
 				}
 				o := got[cs.gitID]
+				if o.skipped {
+					continue
+				}
 				c.Count("git_reads_of_gogit_objects", 1)
 				c.Eval(vf.ShapeHash(fname, cs.typ, sizeClass(len(cs.content)), features(cs.content)), cs.typ != plumbing.BlobObject || len(cs.content) >= 4096 || len(cs.content) == 0 || features(cs.content) != "")
 				var why string
 				switch {
 				case !o.ok:
-					why = "git cannot find/read the object"
+					why = "git cannot find/read the object: " + o.why
 				case o.typ != cs.typ.String():
 					why = fmt.Sprintf("git reads type %s", o.typ)
 				case o.size != int64(len(cs.content)):
 					why = fmt.Sprintf("git reads size %d", o.size)
 				case !bytes.Equal(o.content, cs.content):
 					why = "git reads different bytes"
-				case chk[cs.gitID] != fmt.Sprintf("%s %d", cs.typ, len(cs.content)):
+				case chk != nil && chk[cs.gitID] != fmt.Sprintf("%s %d", cs.typ, len(cs.content)):
 					why = fmt.Sprintf("git --batch-check says %q", chk[cs.gitID])
 				}
 				if why != "" {
@@ -584,8 +660,8 @@ func run(c *vf.Ctx) {
 	c.Sample(map[string]any{"type": s0.typ.String(), "size": len(s0.content), "git_id_last_format": s0.gitID})
 	c.Sample(map[string]any{"type": cases[3].typ.String(), "content": vf.Q(cases[3].content), "git_id_last_format": cases[3].gitID})
 	c.Extra("git_invocations", gitx.Calls.Load())
-	c.Floor("id comparisons", c.Counter("id_comparisons"), c.N(8000, 100000))
-	c.Floor("git reads of go-git-written loose objects", c.Counter("git_reads_of_gogit_objects"), c.N(4000, 60000))
+	c.Floor("id comparisons", c.Counter("id_comparisons"), c.N(8000, 60000))
+	c.Floor("git reads of go-git-written loose objects", c.Counter("git_reads_of_gogit_objects"), c.N(4000, 30000))
 	c.Floor("go-git reads of git-written loose objects", c.Counter("gogit_reads_of_git_objects"), c.N(700, 10000))
 	c.Floor("worktree adds", c.Counter("worktree_adds"), c.N(200, 1000))
 	c.Floor("entry points", c.SeenCount("entry_points"), 14)
@@ -619,7 +695,7 @@ func runWorktreeAdd(c *vf.Ctx, g *gitx.Git, cases []*objCase, fname string, of f
 		}
 		name := fmt.Sprintf("f%06d", cs.idx)
 		link := false
-		if len(cs.content) > 0 && len(cs.content) < 1000 && bytes.IndexByte(cs.content, 0) < 0 && cs.idx%2 == 0 {
+		if len(cs.content) > 0 && len(cs.content) < 1000 && bytes.IndexByte(cs.content, 0) < 0 && (cs.idx%2 == 0 || cs.link) {
 			link = true
 			name = fmt.Sprintf("l%06d", cs.idx)
 			if err := os.Symlink(string(cs.content), filepath.Join(dir, name)); err != nil {
@@ -659,7 +735,7 @@ func runWorktreeAdd(c *vf.Ctx, g *gitx.Git, cases []*objCase, fname string, of f
 	}
 	got, err := batchRead(g, dir, want)
 	if err != nil {
-		c.Broken("worktree/%s: %v", fname, err)
+		gitErr(c, "worktree/"+fname, err)
 		return
 	}
 	for _, a := range adds {
